@@ -121,6 +121,22 @@ def run(ctx):
         txt = " | ".join(T.text(s) for s in T.root_streams())
         ok = txt == "⟨&proc_macro2::Ident⟩ = ⟨alt __errors . handle ( ⟨&syn::path::Path⟩ ( __fwd_attrs ) ) | :: darling :: export :: Some ( __fwd_attrs ) ⟩ ;"
         ctx.ob("C08.H.forward-populator", f.key, "attrs = Some(__fwd_attrs) | handle(with(__fwd_attrs))", ok, txt)
+    # the buffers that live across attributes (__flatten, __fwd_attrs) are only ever pushed to by the per-list / per-attribute code
+    for key in ("darling_core::codegen::variant_data::FieldsGen::<'a>::core_loop", EXT, common.TOK % "attrs_field::MatchArms<'_>", common.TOK % "field::MatchArm<'_>"):
+        g = ctx.fn(key)
+        if not g:
+            continue
+        T = tpl.Templates(g)
+        for s in T.by_stream:
+            toks = T.by_stream[s]
+            for i, tk in enumerate(toks):
+                if tk.kind == "ident" and tk.text in ("__flatten", "__fwd_attrs"):
+                    nxt = [(x.kind, x.text) for x in toks[i + 1:i + 3]]
+                    prev = toks[i - 1] if i else None
+                    is_push = nxt[:2] == [("punct", "."), ("ident", "push")]
+                    is_read_arg = prev is not None and prev.kind == "punct" and prev.text == "&"
+                    ctx.ob("C08.H.cross-attribute-buffers-only-pushed", g.key, "%s in template" % tk.text, is_push or is_read_arg,
+                           "inside the per-attribute / per-list code the buffer may only be `.push(..)`-ed; found `%s %s`: reassigning or re-declaring it drops items read from earlier attributes" % (tk.text, " ".join(str(x[1]) for x in nxt)))
     # ------------------------------------------------------------ parse_attribute_to_meta_list
     f = ctx.fn("darling_core::util::parse_attribute::parse_attribute_to_meta_list")
     if f:
@@ -181,6 +197,11 @@ def run(ctx):
                 else:
                     bad.append("%s at bb%d" % (c, blk))
             ctx.ob("C08.B.forward-unmodified-in-order", b.key, "__fwd_attrs", not bad, "writes other than push(attr.clone()) inside the loop: %s" % bad)
+        # the flatten buffer: declared once outside every loop, then only pushed to / read
+        for l in [l for l, n in D.names.items() if n == "__flatten"]:
+            defs_ = [d for d in b.defs().get(l, []) if not b.is_cleanup(d[0]) and d[2] in ("assign", "call")]
+            inl = [d[0] for d in defs_ if in_loop(d[0])]
+            ctx.ob("C08.B.flatten-buffer-declared-once", b.key, "__flatten", len(defs_) == 1 and not inl, "definitions of the buffer at blocks %s (inside loops: %s)" % ([d[0] for d in defs_], inl))
         # parsing is gated by a declared attribute name
         for cb, t in D.calls_to(r"^darling_core::util::parse_attribute::parse_attribute_to_meta_list$"):
             n_parse += 1
